@@ -1,4 +1,5 @@
 import I18n.Lemmas.CharsetTables
+import I18n.Lemmas.CharsetRegistry
 import I18n.Lemmas.CharsetCharmaps
 import I18n.Lemmas.CharsetIconv
 import I18n.Lemmas.CharsetIconvSchedule
@@ -193,6 +194,42 @@ theorem proposal_sound (lookup : Name → Option Name) (name : Name) :
   have := c2e_portable
   rw [List.all_eq_true] at this
   exact this
+
+/-! ### the registry itself: `codecs.lookup(name).name` as a model (C normalisation, alias table, `encodings.<module>`, the tool's
+search function), the structural reason behind "names the same codec" -/
+
+/-- **the model of `codecs.lookup` gives the registry's answer** for every codec name known to Python, gettext or the tool -/
+theorem registry_model_matches : ∀ r ∈ codecFacts, registry r.name = r.codec := by
+  intro r hr
+  have := all_rows registry_rows r hr
+  simpa using this
+
+/-- the model of `propose_portable_encoding` run on the MODEL of the registry gives every proposal the tool made -/
+theorem proposal_via_registry : ∀ r ∈ codecFacts,
+    proposeEq (propose portableEncodings pycodecToEncoding registry r.name) r.tProposal = true := by
+  intro r hr
+  have h1 := model_matches_tool r hr
+  simp only [rowModelOk, Bool.and_eq_true] at h1
+  have h2 := registry_model_matches r hr
+  have : propose portableEncodings pycodecToEncoding registry r.name =
+      propose portableEncodings pycodecToEncoding (fun _ => r.codec) r.name := by
+    simp only [propose, h2]
+  rw [this]
+  exact h1.1.1.2
+
+/-- **for EVERY name (any string without NUL), under the registry model: a proposal is portable and the registry resolves it to
+    the same codec as the original name** — the alias relation behind every proposal; the registry does not look at ASCII case
+    (`registry (upper n) = registry n`), which is why the upper-cased proposal is the same codec -/
+theorem proposal_same_codec_every_name (name p : Name)
+    (h : propose portableEncodings pycodecToEncoding registry name = .ok (some p)) :
+    registry p = registry name ∧ isPortable portableEncodings true p = true ∧ (∀ n, registry (upper n) = registry n) := by
+  refine ⟨?_, proposal_portable _ _ _ name p h, fun n => registryLookup_upper _ _ _ _ _ n⟩
+  have hcl : ∀ kv ∈ pycodecToEncoding, registry (upper kv.2) = some kv.1 := by
+    have := registry_c2e_closed
+    rw [List.all_eq_true] at this
+    intro kv hkv
+    simpa using this kv hkv
+  exact (proposal_sound registry name).2 hcl p h
 
 /-- the running registry does resolve them -/
 theorem registry_closed :
